@@ -52,6 +52,11 @@ Proof.
   intros [a b] [c d]. unfold zz_eqb. simpl. rewrite andb_true_iff, !Z.eqb_eq.
   split; [intros [-> ->]; reflexivity|intros H; injection H; auto].
 Qed.
+Lemma kva_eqb_ok : eqb_ok kva_eqb.
+Proof.
+  intros [a b] [c d]. unfold kva_eqb. simpl. rewrite andb_true_iff, (zz_eqb_ok a c), (zz_eqb_ok b d).
+  split; [intros [-> ->]; reflexivity|intros H; injection H; auto].
+Qed.
 Lemma str_eqb_ok : eqb_ok str_eqb. Proof. apply list_eqb_ok, Z_eqb_ok. Qed.
 Lemma cmod_eqb_ok : eqb_ok cmod_eqb.
 Proof.
@@ -137,7 +142,7 @@ End Check.
 
 Theorem model_check_spec_check_gen ca cb (c : case) : model_check c = true -> spec_check_gen ca cb c = true.
 Proof.
-  destruct c as [h|h|h|h|h|h|h|h|h|h|h]; cbn [model_check spec_check_gen].
+  destruct c as [h|h|h|h|h|h|h|h|h|h|h|h|h|h|h|h|h|h|h|h|h]; cbn [model_check spec_check_gen].
   - apply (model_check_spec_check_k kit_min _ kit_min_lawful Z_eqb_ok Z_eqb_ok).
   - apply (model_check_spec_check_k kit_max _ kit_max_lawful Z_eqb_ok Z_eqb_ok).
   - apply (model_check_spec_check_k kit_sum _ kit_sum_lawful Z_eqb_ok Z_eqb_ok).
@@ -151,4 +156,18 @@ Proof.
   - apply (model_check_spec_check_k kit_concat _ kit_concat_lawful cc_eqb_ok (list_eqb_ok _ str_eqb_ok)).
   - apply (model_check_spec_check_k kit_affine _ kit_affine_lawful af_eqb_ok zz_eqb_ok).
   - apply (model_check_spec_check_k kit_flip _ kit_flip_lawful fl_eqb_ok zz_eqb_ok).
+  - apply (model_check_spec_check_k kit_minkey _ kit_minkey_lawful zz_eqb_ok zz_eqb_ok).
+  - apply (model_check_spec_check_k kit_maxkey _ kit_maxkey_lawful zz_eqb_ok zz_eqb_ok).
+  - apply (model_check_spec_check_k kit_minf _ kit_minf_lawful zz_eqb_ok zz_eqb_ok).
+  - apply (model_check_spec_check_k kit_maxf _ kit_maxf_lawful zz_eqb_ok zz_eqb_ok).
+  - apply (model_check_spec_check_k kit_minaddkey _ kit_minaddkey_lawful kva_eqb_ok zz_eqb_ok).
+  - apply (model_check_spec_check_k kit_maxaddkey _ kit_maxaddkey_lawful kva_eqb_ok zz_eqb_ok).
+  - apply (model_check_spec_check_k kit_sumcat _ kit_sumcat_lawful str_eqb_ok str_eqb_ok).
+  - apply (model_check_spec_check_k kit_combcat _ kit_combcat_lawful (pair_eqb_ok _ _ cc_eqb_ok cc_eqb_ok)
+             (pair_eqb_ok _ _ (list_eqb_ok _ str_eqb_ok) (list_eqb_ok _ str_eqb_ok))).
+  - apply (model_check_spec_check_k kit_combunit _ kit_combunit_lawful
+             (pair_eqb_ok _ _ Z_eqb_ok (pair_eqb_ok _ _ Z_eqb_ok Z_eqb_ok))
+             (pair_eqb_ok _ _ Z_eqb_ok (pair_eqb_ok _ _ Z_eqb_ok Z_eqb_ok))).
+  - apply (model_check_spec_check_k kit_combflip _ kit_combflip_lawful (pair_eqb_ok _ _ fl_eqb_ok Z_eqb_ok)
+             (pair_eqb_ok _ _ zz_eqb_ok Z_eqb_ok)).
 Qed.
